@@ -110,13 +110,17 @@ def gen_sentence(rnd, style):
         op = rnd.random()
         # (non-ASCII decimal digits are digits for str.isdigit() / int() / an un-flagged \d,
         # but not for the documented grammar)
-        ch = rnd.choice(ALPHABET + "23456789bcdeE ,;x" + "\u0663\uff13\u0969")
+        ch = rnd.choice(ALPHABET + "23456789bcdeE ,;x\n\t" + "\u0663\uff13\u0969")
         if op < 0.33:
             s = s[:i] + ch + s[i:]
         elif op < 0.66 and i < len(s):
             s = s[:i] + s[i + 1 :]
         elif i < len(s):
             s = s[:i] + ch + s[i + 1 :]
+    if rnd.random() < 0.06:
+        # white space around a sentence is not part of the grammar (a line read from a
+        # file and not stripped, say)
+        s = rnd.choice([s + "\n", s + " ", "\n" + s, s + "\r\n", s + "\n\n"])
     return s
 
 
